@@ -6,7 +6,7 @@
 //
 // Oracle (refField): every Content-Length value of the block = every field value, split at ',' when it is a list
 // (empty list elements are ignored, RFC 9110 5.6.1.2), with surrounding whitespace removed. A value is valid iff it is
-// 1*DIGIT and fits int64 (decimal accumulated in unsigned __int128).
+// 1*DIGIT and fits int64 (decimal accumulated with a range check before every step).
 //   unambiguous := at least one value, all valid, all equal, and (exactly one value or relaxed parsing)
 // Asserted:
 //   (U) a length is used  => unambiguous, the used length is that decimal, and the one stored field is a 1*DIGIT token of that value
@@ -30,6 +30,16 @@ struct ClRef {
     bool haveValue;
 };
 static void refInit(ClRef &r) { r.count = 0; r.allValid = r.allEqual = r.cleanBytes = true; r.list = r.vtffElement = false; r.value = 0; r.haveValue = false; }
+
+// acc = acc * 10 + digit unless that exceeds INT64_MAX (checked before multiplying: no wrap-around anywhere)
+static bool refAppendDigit(uint64_t &acc, const uint8_t c)
+{
+    const uint64_t max = (uint64_t)INT64_MAX, d = (uint64_t)(c - '0');
+    if (acc > max / 10) return false;
+    if (acc * 10 > max - d) return false;
+    acc = acc * 10 + d;
+    return true;
+}
 
 // one field value (trimmed or not)
 static void refField(ClRef &r, const uint8_t *v, const unsigned n)
@@ -55,15 +65,14 @@ static void refField(ClRef &r, const uint8_t *v, const unsigned n)
         if (a < b || !list) {                       // an empty element of a list is ignored; an empty lone value is a (bad) value
             ++r.count;
             bool valid = a < b;
-            unsigned __int128 acc = 0;
+            uint64_t acc = 0;
             for (unsigned i = a; i < b; ++i) {
                 if (!refDigit(v[i])) { valid = false; break; }
-                acc = acc * 10 + (v[i] - '0');
-                if (acc > (unsigned __int128)INT64_MAX) { valid = false; break; }
+                if (!refAppendDigit(acc, v[i])) { valid = false; break; }      // does not fit int64
             }
             if (!valid) r.allValid = false;
-            else if (!r.haveValue) { r.haveValue = true; r.value = (uint64_t)acc; }
-            else if (r.value != (uint64_t)acc) r.allEqual = false;
+            else if (!r.haveValue) { r.haveValue = true; r.value = acc; }
+            else if (r.value != acc) r.allEqual = false;
         }
         if (e >= n) break;
         s = e + 1;
@@ -124,12 +133,12 @@ static void checkBlock(const uint8_t *in, const unsigned n, const http_hdr_owner
         vf_assert(length >= 0 && (uint64_t)length == r.value, "the length used is the decimal written in the field");
         vf_assert(stored == 1, "exactly one Content-Length is stored");
         bool token = cle && cle->value.size() >= 1;
-        unsigned __int128 acc = 0;
+        uint64_t acc = 0;
         for (unsigned i = 0; token && i < cle->value.size(); ++i) {
             const uint8_t c = (uint8_t)cle->value[i];
-            if (!refDigit(c)) token = false; else if (acc <= (unsigned __int128)INT64_MAX) acc = acc * 10 + (c - '0');
+            if (!refDigit(c) || !refAppendDigit(acc, c)) token = false;
         }
-        vf_assert(token && acc == (unsigned __int128)r.value, "the stored Content-Length is a one-token decimal of the used value");
+        vf_assert(token && acc == r.value, "the stored Content-Length is a one-token decimal of the used value");
         vf_assert(clen.sawGood && !clen.sawBad && clen.value == length, "the interpreter reports the same length");
         vf_reach(r.count > 1 ? "used-duplicates" : "used");
     } else {
@@ -172,15 +181,19 @@ FAMILY(list3, T("Content-Length: 7,\x01,\x01\r\n", "Content-Length: 7,\x01\x01,\
 FAMILY(two, T("Content-Length: 1\x01\r\nHost: h\r\nContent-Length: 1\x01\r\n", "Content-Length:\x01\x01\r\nHost: h\r\nContent-Length: 1\x01\r\n"))
 // three fields: equal duplicates then anything
 FAMILY(three, T("Content-Length: 5\r\nContent-Length: 5\r\ncontent-length: \x01\r\n", "Content-Length: 5\r\nContent-Length:\x01\x01\r\ncontent-length: \x01\r\n"))
-// the int64 boundary: 19/20-digit values
-FAMILY(huge, T("Content-Length: 922337203685477580\x01\x01\r\n", "Content-Length: 92233720368547758\x02\x01\x01\r\n"))
+// the int64 boundary: 922337203685477580d (d <= 7 fits), INT64_MAX followed by anything (a 20th digit, whitespace, garbage),
+// INT64_MAX repeated with a symbolic last digit; thorough: last digit and the byte after it both symbolic (slow: 64-bit
+// multiply/divide chains of strtoll over two symbolic characters)
+FAMILY(maxdigit, "Content-Length: 922337203685477580\x02\r\n")
+FAMILY(maxplus, "Content-Length: 9223372036854775807\x01\r\n")
 FAMILY(huge2, "Content-Length: 9223372036854775807\r\nContent-Length: 922337203685477580\x02\r\n")
+FAMILY(huge, "Content-Length: 922337203685477580\x02\x01\r\n")
 // leading zeros compare by value
 FAMILY(zeros, T("Content-Length: 00000000000000000000012\r\nContent-Length: 1\x01\r\n", "Content-Length: 00000000000000000000012\r\nContent-Length: \x01\x02\r\n"))
 
 extern "C" void c26_values(void) { static Family *const f[] = {single, list, list3}; run(f, 3, false, true); }
 extern "C" void c26_fields(void) { static Family *const f[] = {two, three}; run(f, 2, true, false); }
-extern "C" void c26_big(void) { static Family *const f[] = {huge, huge2, zeros}; run(f, 3, false, false); }
+extern "C" void c26_big(void) { static Family *const f[] = {maxdigit, maxplus, huge2, zeros, huge}; run(f, T(4, 5), false, false); }   // huge: thorough only
 
 // (K) the interpreter alone: one or two checkField() calls with untrimmed values (leading/trailing whitespace reaches
 // findDigits/goodSuffix only this way), NUL-free as String values of a parsed block are
